@@ -50,6 +50,9 @@ type Config struct {
 	// Invariant, if set, runs at every quiescence (no instrumented goroutine running).
 	Invariant func() error
 	Trace     func(string) // optional event log sink (must not draw or read real clocks)
+	// FixedStrategy: do not draw a scheduling strategy (uniform choice); used when the decision
+	// tree is enumerated exhaustively.
+	FixedStrategy bool
 }
 
 // Sim is one simulated execution.
@@ -630,6 +633,9 @@ func (s *Sim) LastSpawnedID() int { s.mu.Lock(); defer s.mu.Unlock(); return s.n
 
 // scheduling strategies; the strategy itself is a schedule-stream decision made at start
 func (s *Sim) initStrategy() {
+	if s.cfg.FixedStrategy {
+		return
+	}
 	s.strategy = s.Choose(Schedule, 5, "strategy")
 	s.stickyP = 1 + s.Choose(Schedule, 9, "sticky-p")
 	if s.strategy == 4 {
